@@ -156,6 +156,23 @@ int main(int argc, char** argv) {
         unsigned k = (unsigned)(c % 8);
         if (k < 4) {
             Bytes b = r.pick(g_bin_seeds[k]);
+            if (k == 0 && r.chance(1, 8)) {
+                // RFC 8746 typed arrays (every element type and byte order) alone and as storage of a multi-dimensional array (tag 40 / 1040)
+                // whose extents multiply to fewer, as many or more elements than stored
+                unsigned tag = 64 + (unsigned)r.below(24);
+                static const unsigned esz[] = {1, 2, 4, 8, 1, 2, 4, 8, 1, 2, 4, 8, 1, 2, 4, 8, 2, 4, 8, 16, 2, 4, 8, 16};
+                size_t n = r.below(7); Bytes payload(n * esz[tag - 64]); for (auto& x : payload) x = (uint8_t)r.next();
+                if (r.chance(1, 4) && !payload.empty()) payload.pop_back();       // not a multiple of the element size
+                Bytes ta = {0xd8, (uint8_t)tag}; if (payload.size() < 24) ta.push_back((uint8_t)(0x40 | payload.size())); else { ta.push_back(0x58); ta.push_back((uint8_t)payload.size()); } ta.insert(ta.end(), payload.begin(), payload.end());
+                if (r.coin()) b = ta;
+                else {
+                    size_t d1 = r.below(5), d2 = r.below(5); if (r.coin() && n > 0) { d1 = 1 + r.below(n); d2 = n / d1 + (size_t)r.below(2); }
+                    b.clear(); if (r.coin()) { b.push_back(0xd8); b.push_back(40); } else { b.push_back(0xd9); b.push_back(0x04); b.push_back(0x10); }
+                    b.push_back(0x82); if (r.chance(1, 6)) { b.push_back(0x83); b.push_back((uint8_t)r.below(4)); } else b.push_back(0x82); b.push_back((uint8_t)d1); b.push_back((uint8_t)d2);
+                    if (r.chance(1, 5)) { b.push_back((uint8_t)(0x80 | n)); for (size_t i = 0; i < n; ++i) b.push_back((uint8_t)r.below(24)); } else b.insert(b.end(), ta.begin(), ta.end());
+                }
+                H.count_("cbor.typed_array_and_mdarray_inputs");
+            }
             if (r.chance(1, 12)) { Bytes b2 = r.pick(g_bin_seeds[r.below(4)]); b.insert(b.begin() + (long)r.below(b.size() + 1), b2.begin(), b2.end()); }
             mutate_bytes(b, r, 5);
             g_robust_input = hex(b); set_flight_desc(std::string("bin") + std::to_string(k) + " " + g_robust_input.substr(0, 3000));
@@ -175,6 +192,15 @@ int main(int argc, char** argv) {
             // TOON: only unmutated seed documents with random options. Mutated TOON text crashes the reader of the unchanged tree in
             // several ways (open findings, isolated witnesses in --mode witnesses); fuzzing it would only rediscover those.
             std::string t = r.pick(g_toon_seeds);
+            // ... except inside a sub-space that stays clear of the known crash triggers (tab characters: T10/T11; exponents of three or
+            // more digits: T12): token-level mutation with a tab-free dictionary
+            if (r.coin()) {
+                static const std::vector<std::string> SAFE = {":", ": ", "-", "- ", "[", "]", "{", "}", "[3]:", "[2]{a,b}:", ",", "|", "\n", "\n  ", "\n    ", "\"", "\"\"", "\\", "\\n", "\\u0041", "null", "true", "1", "-0", "1e40", "#", "[#2]", " ", "a.b", "a: \"", "\"x", "x\""};
+                mutate_text(t, r, SAFE, 3);
+                bool risky = t.find('\t') != std::string::npos;
+                for (size_t i = 0; i + 3 < t.size() && !risky; ++i) if ((t[i] == 'e' || t[i] == 'E')) { size_t j = i + 1; if (j < t.size() && (t[j] == '+' || t[j] == '-')) ++j; size_t d = 0; while (j < t.size() && isdigit((unsigned char)t[j])) { ++j; ++d; } if (d >= 3) risky = true; }
+                if (risky) { H.count_("toon.mutation_skipped_known_crash_trigger"); t = r.pick(g_toon_seeds); } else H.count_("toon.mutated_inputs");
+            }
             g_robust_input = hex(t); set_flight_desc("toon " + g_robust_input.substr(0, 3000));
             H.note_distinct(hash_str(t, 13) ^ (u64)c);
             toon_case(t, r);
